@@ -465,5 +465,6 @@ def rule_num(ctx):
 
 
 def run(ctx):
-    return [rule_esc(ctx), rule_reject(ctx), rule_arity(ctx),
-            rule_adjacent(ctx), rule_num(ctx)]
+    S = ctx.soft
+    return [S(rule_esc, ctx), S(rule_reject, ctx), S(rule_arity, ctx),
+            S(rule_adjacent, ctx), S(rule_num, ctx)]
